@@ -245,21 +245,16 @@ Qed.
 Definition in_int (z : Z) : Prop := -32768 <= z <= 32767.
 Definition in_long (z : Z) : Prop := -2147483648 <= z <= 2147483647.
 
-Theorem val_str_roundtrip k : in_long k ->
-  val_fn (str_fn k) = Some (if (-32768 <=? k) && (k <=? 32767) then TInt else TLong, k).
+Theorem val_str_roundtrip k : in_long k -> val_fn (str_fn k) = Some (TDouble, k).
 Proof.
   unfold in_long; intros Hk. unfold str_fn, val_fn.
   destruct (Z.leb_spec 0 k) as [Hpos|Hneg].
   - destruct (dec_digits_spec 20 k ltac:(change (10 ^ Z.of_nat 20) with 100000000000000000000; lia) ltac:(lia)) as (Hd & Hne & Hnum).
     cbn [val_scan]. change ((48 <=? 32) && (32 <=? 57)) with false. cbn [Z.eqb Pos.eqb].
     rewrite <- (app_nil_r (dec_digits 20 k)), val_scan_digits by (auto; discriminate).
-    cbn [val_scan]. rewrite Hnum, Z.mul_0_l, Z.add_0_l. cbn [andb negb].
-    repeat match goal with |- context [?a <=? ?b] => destruct (Z.leb_spec a b) end;
-      cbn [andb negb]; try lia; reflexivity.
+    cbn [val_scan]. rewrite Hnum, Z.mul_0_l, Z.add_0_l. reflexivity.
   - destruct (dec_digits_spec 20 (- k) ltac:(change (10 ^ Z.of_nat 20) with 100000000000000000000; lia) ltac:(lia)) as (Hd & Hne & Hnum).
     cbn [val_scan]. change ((48 <=? 45) && (45 <=? 57)) with false. cbn [Z.eqb Pos.eqb].
     rewrite <- (app_nil_r (dec_digits 20 (- k))), val_scan_digits by (auto; discriminate).
-    cbn [val_scan]. rewrite Hnum, Z.mul_0_l, Z.add_0_l. cbn [andb negb].
-    repeat match goal with |- context [?a <=? ?b] => destruct (Z.leb_spec a b) end;
-      cbn [andb negb]; try lia; rewrite ?Z.opp_involutive; reflexivity.
+    cbn [val_scan]. rewrite Hnum, Z.mul_0_l, Z.add_0_l, Z.opp_involutive. reflexivity.
 Qed.
